@@ -79,7 +79,14 @@ class C06:
         for magic_int, level in ((64, "3.3"), (112, "3.5"), (160, "3.6"), (192, "3.6"), (240, "3.7"), (256, "3.8"), (336, "3.9"), (384, "3.10")):
             vt = rm.vtuple(level)
             self.corpus.setdefault("pypy:%d:%d.%d" % (magic_int, vt[0], vt[1]), []).append(("synthetic", magic_int, vt, None))
-        self.keys = sorted(self.magics) + sorted(k for k in self.corpus if k.startswith("pypy:"))
+        # every other magic of CPython's registry (alphas, betas, release candidates) in the series whose header layout
+        # did not change mid-series (3.3 gained the size word and 3.7 the PEP 552 layout between two alphas)
+        self.interim = {}
+        finals = set(self.magics.values())
+        for (mj, mn, suf, magic, _src) in magicreg.registry_rows():
+            if magic not in finals and (mj, mn) not in ((3, 3), (3, 7)) and (mj, mn) >= (2, 1):
+                self.interim["reg:%d" % magic] = (magic, (mj, mn))
+        self.keys = sorted(self.magics) + sorted(k for k in self.corpus if k.startswith("pypy:")) + sorted(self.interim)
 
     def strategy(self, ctx):
         word = st.one_of(st.sampled_from([0, 1, 2, 3, 0x01000000, 0x00000100, 0x00010001, 0x01000002, 4, 0xFFFFFFFF,
@@ -105,7 +112,11 @@ class C06:
             return res
         key = case["key"]
         marker = None
-        if key.startswith("pypy:"):
+        if key.startswith("reg:"):
+            magic_int, vt = self.interim[key]
+            is_pypy = False
+            payload = None      # header fields only: the code layout of alphas and betas is not documented anywhere
+        elif key.startswith("pypy:"):
             rel, magic_int, vt, payload = self.corpus[key][case["marker"] % len(self.corpus[key])]
             expect_tree = None
             is_pypy = True
@@ -149,6 +160,9 @@ class C06:
         try:
             tup = x.load.load_module(path, get_code=payload is not None)
         except ImportError as e:
+            if key.startswith("reg:") and "interim" in str(e):
+                res.classes.append("interim-magic-refused")
+                return res
             if vt >= (3, 7) and (w1 & ~0b11):
                 res.classes.append("invalid-flags-rejected")
                 return res
